@@ -412,6 +412,15 @@ C18_Once(s, e, t, g) ==
   /\ (e.name = "Respond" /\ e.ok /\ e.kind = "seed" /\ e.ctx \in DOMAIN s.opend
         /\ Single(g, s.opend[e.ctx].id) /\ g.req[s.opend[e.ctx].id].ctx = e.ctx)
        => s.opend[e.ctx].id \in Changed(s, t)
+  \* the same, judged from the history alone (not from the module's own waiting list, which a
+  \* defect may have emptied: seed C18-s5 pruned waiting requests too early): the context of an
+  \* oracle request has ONE provider and a threshold of one, so a seed response the service
+  \* module accepts for it is the response the request was waiting for
+  /\ (e.name = "Respond" /\ e.ok /\ e.kind = "seed") =>
+       \A id \in DOMAIN g.req :
+         (Single(g, id) /\ g.req[id].oracle /\ g.req[id].ctx = e.ctx /\ e.ctx # ""
+            /\ e.ctx \notin g.lostO /\ id \notin DOMAIN s.results)
+         => id \in Changed(s, t)
 
 (* C18 range / pure: verdicts of the harness on every value written *)
 C18_Range(s, e, t) ==
